@@ -366,7 +366,7 @@ def run(ctx):
         )
     led.extra["interpreters_used_as_parsers"] = tested
     led.require_min("C20.syntax", n_nodes, 5000, "AST nodes censused")
-    led.require_min("C20.order", n_order, 3, "plain-dict-order obligations")
+    led.require_min("C20.order", n_order, 1, "plain-dict-order obligations")
     led.undecided("C20.runtime", "equality of results across nine runtimes in general (needs execution); Python 2 byte strings with non-ASCII bytes")
 
 
